@@ -238,6 +238,20 @@ func (c *cliPC) ReadFrom(b []byte) (int, net.Addr, error) {
 	return n, a, err
 }
 
+// pubPC counts the RTP datagrams the publishing client's writer goroutine really sent.
+type pubPC struct {
+	*net.UDPConn
+	sent *atomic.Int64
+	port int
+}
+
+func (c *pubPC) WriteTo(b []byte, addr net.Addr) (int, error) {
+	if c.port%2 == 0 && len(b) >= 12 {
+		c.sent.Add(1)
+	}
+	return c.UDPConn.WriteTo(b, addr)
+}
+
 func parseHdr(b []byte) (pt uint8, seq uint16, ts uint32, ssrc uint32) {
 	return b[1] & 0x7f, binary.BigEndian.Uint16(b[2:]), binary.BigEndian.Uint32(b[4:]), binary.BigEndian.Uint32(b[8:])
 }
